@@ -40,63 +40,56 @@ func (i *index) Clear() {
 	i.refs = map[string]string{}
 }
 
-func (i *index) putData(key string, item map[string]*types.Item) error {
-	indexKey, err := i.keySchema.GetKey(i.Table.AttributesDef, item)
-	if err != nil || indexKey == "" {
-		return err
-	}
-
-	_, exists := i.refs[key]
-
-	i.refs[key] = indexKey
-
-	if !exists {
-		i.sortedKeys = append(i.sortedKeys, indexKey)
-		sort.Strings(i.sortedKeys)
-	}
-
-	return nil
-}
-
-func (i *index) updateData(key string, item, oldItem map[string]*types.Item) error {
-	indexKey, err := i.keySchema.GetKey(i.Table.AttributesDef, item)
-	if err != nil || indexKey == "" {
-		return err
-	}
-
-	old := i.refs[key]
-	i.refs[key] = indexKey
-
-	if old != indexKey {
-		pos := sort.SearchStrings(i.sortedKeys, old)
-		if pos >= len(i.sortedKeys) {
-			i.sortedKeys = append(i.sortedKeys, indexKey)
-		} else {
-			i.sortedKeys[pos] = indexKey
+// set makes indexKey the index entry of the item stored under the primary key; an empty indexKey means
+// that the item has no entry (secondary indexes are sparse). refs and sortedKeys are kept in step.
+func (i *index) set(key, indexKey string) {
+	old, exists := i.refs[key]
+	if exists {
+		if old == indexKey {
+			return
 		}
 
-		sort.Strings(i.sortedKeys)
+		i.removeSortedKey(old)
+		delete(i.refs, key)
 	}
 
-	return nil
+	if indexKey == "" {
+		return
+	}
+
+	i.refs[key] = indexKey
+	i.sortedKeys = append(i.sortedKeys, indexKey)
+	sort.Strings(i.sortedKeys)
 }
 
-func (i *index) delete(key string, item map[string]*types.Item) error {
-	delete(i.refs, key)
-
-	indexKey, err := i.keySchema.GetKey(i.Table.AttributesDef, item)
-	if err != nil || indexKey == "" {
-		return err
-	}
-
+func (i *index) removeSortedKey(indexKey string) {
 	pos := sort.SearchStrings(i.sortedKeys, indexKey)
 	if pos == len(i.sortedKeys) {
-		return err
+		return
 	}
 
 	copy(i.sortedKeys[pos:], i.sortedKeys[pos+1:])
 	i.sortedKeys[len(i.sortedKeys)-1] = ""
 	i.sortedKeys = i.sortedKeys[:len(i.sortedKeys)-1]
+}
+
+func (i *index) putData(key string, item map[string]*types.Item) error {
+	indexKey, err := i.keySchema.GetKey(i.Table.AttributesDef, item)
+	if err != nil {
+		return err
+	}
+
+	i.set(key, indexKey)
+
+	return nil
+}
+
+func (i *index) updateData(key string, item, oldItem map[string]*types.Item) error {
+	return i.putData(key, item)
+}
+
+func (i *index) delete(key string, item map[string]*types.Item) error {
+	i.set(key, "")
 
 	return nil
 }
